@@ -404,6 +404,30 @@ def discharge(ob, findings, prop, tier):
                 reproduced = bool(cc) and any(not c.holds for c in cc)
                 if cl.cid == 'no-unexpected-exception' and exc is None:
                     reproduced = False
+                if not reproduced:
+                    # the model may sit on "round" values where a float effect (rounding, cancellation) hides the
+                    # violation: ask for nearby generic models (same path, same violation) and replay those
+                    for attempt in (1, 2, 3):
+                        pert = []
+                        for i, (name, v) in enumerate(sorted(h.vars.items())):
+                            if not z3.is_real(v):
+                                continue
+                            val = env.get(name)
+                            if isinstance(val, bool) or val is None:
+                                continue
+                            eps = fractions.Fraction(1234567 + 7919 * i, 10 ** 9) * attempt
+                            pert.append(v == symx.realval(val * (1 + eps) + eps / 7))
+                        r3, m3 = symx.decide(path, z3.And(neg, *excl, *pert), timeout_ms=10000, closure=ob.closure,
+                                             tangent=ob.tangent, stats=stats)
+                        if r3 != 'sat':
+                            continue
+                        env3 = _env_from_model(h, m3, path)
+                        hc3, exc3 = run_concrete(ob, env3, 'replay')
+                        res['replays'] += 1
+                        cc3 = [c for c in hc3.claims if c.cid == cl.cid]
+                        if cc3 and any(not c.holds for c in cc3) and not (cl.cid == 'no-unexpected-exception' and exc3 is None):
+                            reproduced, env, hc = True, env3, hc3
+                            break
                 detail = {'claim': cl.cid, 'obligation': ob.oid, 'env': env_to_json(env), 'info': _short(cl.info, 400),
                           'concrete_claims': [(c.cid, bool(c.holds), _short(c.info, 200)) for c in hc.claims][:20],
                           'log': h.log[-2:]}
